@@ -632,8 +632,12 @@ func writeEvidence(id, tier string, seed int, spec checkSpec, runs []harnessRun,
 		"property_id": id, "tier": tier, "seed": seed, "level": "other", "coverage": cov,
 		"assumptions": spec.Assumptions, "wall_s": wall, "violations": violations,
 	}
-	os.MkdirAll(verifDir()+"/evidence", 0o755)
-	symgo.WriteJSON(verifDir()+"/evidence/"+id+".json", ev)
+	evDir := verifDir() + "/evidence"
+	if d := os.Getenv("VERIF_EVIDENCE_DIR"); d != "" {
+		evDir = d // runs against scratch copies (seeded or refactored trees) must not replace the evidence of /repo
+	}
+	os.MkdirAll(evDir, 0o755)
+	symgo.WriteJSON(evDir+"/"+id+".json", ev)
 }
 
 func replayCmd(args []string) int {
